@@ -278,7 +278,7 @@ func (s *sched) runChunk(w *worker, c chunk) (alive bool) {
 				done++
 				if dumpF != nil {
 					dumpMu.Lock()
-					fmt.Fprintf(dumpF, "%s %d %d\n", c.fam.Name(), cur, cl)
+					fmt.Fprintf(dumpF, "%s %d %d pid=%d\n", c.fam.Name(), cur, cl, w.cmd.Process.Pid)
 					dumpMu.Unlock()
 				}
 				r.Eval()
